@@ -1133,3 +1133,129 @@ func CellWrittenByClosure(a *ssa.Alloc) bool {
 	}
 	return false
 }
+
+// ---------- backing-array provenance ----------
+
+// BackingOrigins walks the values whose backing array a slice value v may share:
+// through re-slicing, phis, local cells, append's first operand (the appended
+// elements are copied, not aliased), the results of module callees (parameters
+// are mapped back to the call's arguments, maxDepth levels deep) and, for calls
+// without a body, every slice argument (a callee may return its argument).
+// visit is called for every value reached; returning false stops below it.
+func BackingOrigins(p *Prog, v ssa.Value, maxDepth int, visit func(ssa.Value) bool) {
+	type frame struct {
+		call   ssa.CallInstruction
+		callee *ssa.Function
+		up     *frame
+	}
+	type key struct {
+		v ssa.Value
+		f *frame
+	}
+	seen := map[key]bool{}
+	depthOf := func(f *frame) int {
+		n := 0
+		for ; f != nil; f = f.up {
+			n++
+		}
+		return n
+	}
+	isSlice := func(t types.Type) bool {
+		_, ok := t.Underlying().(*types.Slice)
+		return ok
+	}
+	var w func(v ssa.Value, f *frame)
+	callResults := func(c *ssa.Call, idx int, f *frame) {
+		cc := c.Common()
+		if IsBuiltin(cc, "append") {
+			w(cc.Args[0], f)
+			return
+		}
+		callee := StaticCallee(cc)
+		if callee != nil && p.InModule(callee) && callee.Blocks != nil && depthOf(f) < maxDepth {
+			nf := &frame{c, callee, f}
+			for _, ret := range Returns(callee) {
+				for _, rv := range ReturnValues(ret, idx) {
+					w(rv, nf)
+				}
+			}
+			return
+		}
+		for _, a := range cc.Args {
+			if isSlice(a.Type()) {
+				w(a, f)
+			}
+		}
+	}
+	w = func(v ssa.Value, f *frame) {
+		if v == nil || seen[key{v, f}] {
+			return
+		}
+		seen[key{v, f}] = true
+		if !visit(v) {
+			return
+		}
+		switch x := v.(type) {
+		case *ssa.Phi:
+			for _, e := range x.Edges {
+				w(e, f)
+			}
+		case *ssa.ChangeType:
+			w(x.X, f)
+		case *ssa.Convert:
+			w(x.X, f)
+		case *ssa.Slice:
+			w(x.X, f)
+		case *ssa.Field:
+			w(x.X, f)
+		case *ssa.Index:
+			w(x.X, f)
+		case *ssa.IndexAddr:
+			w(x.X, f)
+		case *ssa.FieldAddr:
+			// reached through a load: the visitor decides; a field of a local cell is the cell's stores
+			if a, ok := x.X.(*ssa.Alloc); ok {
+				for _, ref := range *x.Referrers() {
+					if st, isSt := ref.(*ssa.Store); isSt && st.Addr == ssa.Value(x) {
+						w(st.Val, f)
+					}
+				}
+				_ = a
+			}
+		case *ssa.UnOp:
+			if x.Op == token.MUL {
+				if a := CellOf(x); a != nil {
+					for _, st := range cellStores(a) {
+						w(st.Val, f)
+					}
+				} else {
+					w(x.X, f)
+				}
+			}
+		case *ssa.Extract:
+			if c, ok := x.Tuple.(*ssa.Call); ok {
+				callResults(c, x.Index, f)
+			}
+		case *ssa.Call:
+			callResults(x, 0, f)
+		case *ssa.Parameter:
+			if f != nil && f.callee == x.Parent() {
+				for i, prm := range f.callee.Params {
+					if prm == x {
+						args := f.call.Common().Args
+						if f.call.Common().IsInvoke() {
+							// not reached: invoke calls have no static callee
+						} else if i < len(args) {
+							w(args[i], f.up)
+						}
+					}
+				}
+			}
+		case *ssa.FreeVar:
+			if b := FreeVarBinding(x); b != nil {
+				w(b, f)
+			}
+		}
+	}
+	w(v, nil)
+}
